@@ -8,6 +8,8 @@
                           | `NULL next=<calls> live=<blocks>`
     F <fails> <item>     cJSON_Duplicate(item, 0), same answers
     G <cs> <key> <item>  get_object_item(item, key, cs) -> `some <index of the child>` | `none`
+    O <fails> <const> <key> <object> <item>   add_item_to_object(object, key, item, &global_hooks, const) with the ledger starting at
+                         live=1000 -> `ok|FAIL next=<calls> live=<blocks> | <object> | attached` or `… | orphan <item>`
     A <idx> <item>       cJSON_GetArraySize / cJSON_GetArrayItem -> `size <n> some <j>` | `size <n> none`
 
   <item> (prefix form): I <kind> <flags: 1 = IsReference, 2 = StringIsConst> <valueint> <valuedouble bits hex>
@@ -71,9 +73,6 @@ def dupLine (deep : Bool) (fails : String) (rest : List String) : String :=
     | (none, a) => s!"NULL next={a.next} live={a.live}"
   | _, _ => "ERROR bad item"
 
-def Item.kids : Item → List Item
-  | .mk _ _ _ _ _ _ _ ks => ks
-
 def showIdx : Option Nat → String
   | none => "none"
   | some j => s!"some {j}"
@@ -91,6 +90,13 @@ def stepLine (u : Unit) (line : String) : Unit × List String :=
     match idx.toInt?, parseItem rest with
     | some idx, some (i, []) => (u, [s!"size {(Item.kids i).length} {showIdx (getArrayItem (Item.kids i) idx)}"])
     | _, _ => (u, ["ERROR bad A"])
+  | "O" :: f :: ck :: key :: rest =>
+    match parseFails f, Hex.toBytes? key, parseItems 2 rest with
+    | some fl, some key, some ([obj, it], []) =>
+      let r := addToObject (fun n => fl.contains n) (ck == "1") key obj it ⟨0, 1000⟩
+      let orphan := match r.orphan with | none => "attached" | some o => "orphan " ++ showItem o
+      (u, [s!"{if r.ok then "ok" else "FAIL"} next={r.a.next} live={r.a.live} | {showItem r.obj} | {orphan}"])
+    | _, _, _ => (u, ["ERROR bad O"])
   | w :: _ => if w.startsWith "#" then (u, []) else (u, ["ERROR unknown op"])
 
 def run (_args : List String) : IO UInt32 := do
